@@ -276,6 +276,15 @@ func runC14(ctx *Ctx) {
 	rep.Rule = "pages carrying every combination of OpenGraph (complete / exactly one required property missing / article or other type), schema.org Article microdata (string and nested Person/Organization properties) and IE Reading View tags (in head or body, opt-out spellings), head order shuffled; distinct by which fields each source provides; non-trivial = two sources provide the same field, or OpenGraph is disqualified by exactly one missing property, or opt-out present"
 	corr := newCorr("markup")
 	corrGate := newCorr("oggate")
+	corrIE := newCorr("iereader")
+	defer corrIE.run(ctx)
+	if ctx.Replay == "" {
+		for i := 0; i < ctx.pick(600, 20000); i++ {
+			r := newRng(ctx.Seed, fmt.Sprintf("C14/ie/%d", i))
+			src := iePage(r, newPageGen(r))
+			addIEReaderCase(corrIE, rep, src, map[string]interface{}{"html": src})
+		}
+	}
 	run := func(m metaIntent, src string) {
 		d := parseDoc(src)
 		rep.Evaluations++
@@ -287,6 +296,7 @@ func runC14(ctx *Ctx) {
 			sb.WriteString(" " + encSource(s))
 		}
 		corr.add(sb.String(), showInfo(info), replay)
+		addIEReaderCase(corrIE, rep, src, replay)
 		// the property, on the public result
 		res, err := distiller.Apply(d.Root, &distiller.Options{SkipPagination: true})
 		if err != nil {
